@@ -48,6 +48,7 @@ func entityDoc(n int32) *D { return &D{K: "obj", KVs: []DKV{{"n", &D{K: "int", I
 // supplied it, `metadata` for finders that declare it — and what the library writes it reads back.
 func (x *runner) runEnvelopes() {
 	r := x.r
+	x.createdIds()
 	n := 40
 	if x.cfg.Tier == "thorough" {
 		n = 400
@@ -143,4 +144,43 @@ func (x *runner) runEnvelopes() {
 		check("batch-entity-update-response", bu, &D{K: "obj", KVs: []DKV{{"status", &D{K: "int", I: wantStatus}}}})
 	}
 	_ = sort.Strings
+}
+
+// createdIds: the `id` member of a create response is the key as it appears in a resource path
+// (the client reads it with the path decoder, and `Location` is built from it): the text the path
+// writer gives for the key, free of the bytes a path segment cannot hold raw.
+func (x *runner) createdIds() {
+	r := x.r
+	keys := []string{"k", "a/b", "a b", "é", "a?b", "a#b", "100%", "\"q\"", "<x>", "a,b", "(x:1)", "", "a+b", "a&b=c", "..", "\x7f", "日本"}
+	for _, key := range keys {
+		op := "envelope created-entity id " + hx.Hex([]byte(key))
+		r.OracleCases++
+		r.Count("envelope:created-entity")
+		r.Distinctive(op)
+		out, err := marshalJSON(&common.CreatedEntity[string]{Id: key, Status: 201})
+		if err != nil {
+			r.OracleFail(hx.Case{Sig: "C03 created-entity envelope could not be written", Op: op, Impl: err.Error()})
+			continue
+		}
+		tree, perr := ParseJSONStrict([]byte(out))
+		m, _ := tree.(map[string]any)
+		id, ok := m["id"].(string)
+		if perr != nil || !ok {
+			r.OracleFail(hx.Case{Sig: "C03 created-entity envelope has no string id", Op: op, Impl: out})
+			continue
+		}
+		w := restlicodec.NewRor2PathWriter()
+		w.WriteString(key)
+		want := w.Finalize()
+		bad := ""
+		for i := 0; i < len(id); i++ {
+			if c := id[i]; c <= ' ' || c >= 0x7f || c == '/' || c == '?' || c == '#' || c == '"' || c == '<' || c == '>' {
+				bad = fmt.Sprintf(" (raw byte %#x)", c)
+				break
+			}
+		}
+		if id != want || bad != "" {
+			r.OracleFail(hx.Case{Sig: "C03 created-entity id is not the key's path-segment text" + bad, Op: op, Impl: id, Expected: want})
+		}
+	}
 }
